@@ -16,3 +16,11 @@
 #if !defined(QTLOGGER_DECL_SPEC)
 #    define QTLOGGER_DECL_SPEC
 #endif
+
+#ifdef QTLOGGER_VERIF
+// Verification hook (off by default): the harness supplies the definition.
+extern "C" void qtlogger_verif_point(const char *point, const void *subject);
+#    define QTLOGGER_VERIF_POINT(p, s) qtlogger_verif_point((p), (s))
+#else
+#    define QTLOGGER_VERIF_POINT(p, s) do { } while (0)
+#endif
